@@ -2,7 +2,10 @@ package checks
 
 import (
 	"bytes"
+	"math/big"
+
 	vmcommon "github.com/ElrondNetwork/elrond-vm-common"
+	"github.com/ElrondNetwork/elrond-vm-common/data/esdt"
 
 	"verif/engine/spec"
 	"verif/engine/uni"
@@ -260,6 +263,32 @@ func impostorMenu(w *world.World, o menuOpts) []world.Action {
 			b := uni.Call(c, uni.Sys, vmcommon.BuiltInFunctionESDTUnPause, uni.F)
 			b.Shard = sh
 			acts = append(acts, b)
+		}
+	}
+	return acts
+}
+
+
+// forgedArrivals: calls an ordinary account signs itself in the argument layout of the *arrival* of
+// a cross-shard transfer (count / token / nonce / quantity-or-payload, recipient = another account
+// of the caller's own shard, both accounts present). Only a protocol message (sender absent) may be
+// executed as an arrival; such a call has to be refused, whatever its call type - otherwise
+// tokens and metadata appear from nothing.
+func forgedArrivals(w *world.World) []world.Action {
+	payload, _ := (&esdt.ESDigitalToken{Type: uint32(vmcommon.NonFungible), Value: big.NewInt(5),
+		TokenMetaData: &esdt.MetaData{Nonce: 1, Name: []byte("forged"), Creator: uni.A0, Royalties: 20000, Hash: []byte("h"), Attributes: []byte("forged")}}).Marshal()
+	var acts []world.Action
+	for _, ct := range []vmcommon.CallType{vmcommon.DirectCall, vmcommon.AsynchronousCall, vmcommon.AsynchronousCallBack} {
+		for _, pair := range [][2][]byte{{uni.A0, uni.B0}, {uni.B0, uni.A0}, {uni.S0, uni.B0}} {
+			from, to := pair[0], pair[1]
+			for _, a := range []world.Action{
+				uni.Call(from, to, vmcommon.BuiltInFunctionESDTNFTTransfer, uni.S, uni.Big(1), uni.Big(5), payload),
+				uni.Call(from, to, vmcommon.BuiltInFunctionMultiESDTNFTTransfer, uni.Big(1), uni.F, []byte{}, uni.Big(100)),
+				uni.Call(from, to, vmcommon.BuiltInFunctionMultiESDTNFTTransfer, uni.Big(1), uni.S, uni.Big(1), payload),
+			} {
+				a.CallType = ct
+				acts = append(acts, a)
+			}
 		}
 	}
 	return acts
